@@ -24,6 +24,8 @@ Amb(c, r) == /\ XfrRelevant(r)
                 IN \E rr \in {0, 1} : PackAll(szs, Params(Fixed, Limit(r), rr, r.udp)).amb
 
 Explained(c, r, o) ==
+  \/ o = DecideD(c, r, {})
+  \/ o = DecideD(c, r, Open)
   \/ \E D \in DevChoices : o = DecideD(c, r, D)
   \/ \E j \in 1 .. Len(NotifyAlts(c, r)) : NotifyRelevant(r, {}) /\ o = NotifyAlts(c, r)[j]
   \/ Amb(c, r)
